@@ -272,13 +272,16 @@ class BaseObserver(EventDispatcher):
         return self._emitters
 
     def start(self) -> None:
-        for emitter in self._emitters.copy():
-            try:
-                emitter.start()
-            except Exception:
-                self._remove_emitter(emitter)
-                raise
-        super().start()
+        # Hold the lock so that a concurrent schedule() either sees its emitter
+        # started here or finds the observer alive and starts it itself.
+        with self._lock:
+            for emitter in self._emitters.copy():
+                try:
+                    emitter.start()
+                except Exception:
+                    self._remove_emitter(emitter)
+                    raise
+            super().start()
 
     def schedule(
         self,
